@@ -302,7 +302,7 @@ def run_e1(sc, scratch=None, value_check=True):
     prov = {}
     for e in rec.events:
         # requests arriving at the outputs of pull-based components (stub or real) while running
-        if e[0] == "GET" and e[6] == "run" and e[1] and e[1].split(".")[0] in cidx and \
+        if e[0] == "GET" and e[4] is not None and e[1] and e[1].split(".")[0] in cidx and \
                 sc["components"][cidx[e[1].split(".")[0]]]["kind"] in ("pull", "wsum"):
             prov.setdefault(e[1].split(".")[0], []).append(e[2])
     shared_ctx = {}
